@@ -1828,6 +1828,51 @@ def warm_up():
             pass
 
 
+def kvargs_stream(rng, n, res):
+    """extension stream (advisory): argument_parsing.KVAppendAction through a real argparse parser, and str_to_bool;
+    every argument is one driver token with a leading ':'"""
+    import argparse
+    from batchie.cli import argument_parsing as ap
+    lines, expect = [], []
+    alpha = "ab=._-1"
+    for t in range(n):
+        k = rng.choice([0, 1, 1, 2, 3, 4])
+        args = []
+        for _ in range(k):
+            m = rng.choice([0, 1, 1, 1, 1, 1, 2, 3])      # number of '=' wanted (mostly well-formed)
+            parts = ["".join(rng.choice("ab._-1") for _ in range(rng.choice([0, 1, 1, 2]))) for _ in range(m + 1)]
+            args.append("=".join(parts) if rng.random() < 0.9 else "".join(rng.choice(alpha) for _ in range(rng.randint(0, 5))))
+        p = argparse.ArgumentParser(exit_on_error=False)
+        p.add_argument("--model-param", nargs=1, action=ap.KVAppendAction, default={})
+        args = [("a" + a) if a.startswith("-") else a for a in args]      # argparse would read a leading '-' as an option
+        argv = []
+        for a in args:
+            argv.extend(["--model-param", a])
+        try:
+            d = p.parse_args(argv).model_param
+            out = " ".join(":%s=%s" % kv for kv in d.items()) if d else "-"
+            res.count("kvargs.accepted.keys_%d" % len(d))
+            if len(d) < len(args):
+                res.count("kvargs.repeated_key")
+        except (argparse.ArgumentError, SystemExit):
+            out = "err"
+            res.count("kvargs.refused")
+        except Exception as e:      # argparse itself refusing the token shape: not the code under study
+            res.count("kvargs.skipped." + type(e).__name__)
+            continue
+        lines.append(" ".join(["args.kv"] + [":" + a for a in args]))
+        expect.append(out)
+        res.evaluations += 1
+    for w in ["true", "T", "Yes", "y", "1", "FALSE", "f", "nO", "n", "0", "", "2", "tru", "yess", "on", "off", "None"]:
+        try:
+            out = "1" if ap.str_to_bool(w) else "0"
+        except ValueError:
+            out = "err"
+        lines.append("args.bool :" + w)
+        expect.append(out)
+    return lines, expect
+
+
 def run(ctx, res):
     res.rule = RULE
     warm_up()
@@ -2001,6 +2046,13 @@ def run(ctx, res):
     res.evaluations += 1
     run_vi(res, vi_case)
     lap("vi_model")
+    kv_lines, kv_expect = kvargs_stream(ctx.subrng("c18kv"), ctx.scale(120, 1200, 400), res)
+    lap("kvargs")
+    if ctx.driver is not None and kv_lines:
+        for l, e, g in zip(kv_lines, kv_expect, ctx.driver.ask(kv_lines)):
+            if e != g:      # command-line glue is outside the text of C18: advisory only
+                res.advise("outside the text of C18: model and implementation of KVAppendAction/str_to_bool disagree", {"line": l}, e[:300], g[:300], signature="C18:ext:kvargs")
+        res.traces_validated += len(kv_lines)
     if ctx.driver is not None:
         got = ctx.driver.ask(lines + ["c18.trace sampleVI n=1", "c18.excluded sampleVI", "c18.excluded cliTrainModelVI"])
         for l, e, g, (where, case) in zip(lines, expect, got, meta):
